@@ -1,6 +1,6 @@
 (* C12 -- property theorems only; each closed by `exact` and followed by Print Assumptions. *)
 Require Import SF.Prelude SF.Dtype SF.Value SF.PyDyn SF.SortCore SF.SortModel.
-Require Import Proofs.SortStable Proofs.SortLex Proofs.SortRefine Proofs.SortGen Gen.Gen_util Gen.Gen_c12.
+Require Import Proofs.SortStable Proofs.SortLex Proofs.SortRefine Proofs.SortCache Proofs.SortGen Gen.Gen_util Gen.Gen_c12.
 
 (* The effective default sort kind of every public sort method, and both constants of util.py,
    REGENERATED from the source, are stable kinds (a change to 'quicksort' breaks this). *)
@@ -165,3 +165,14 @@ Theorem C12_index_sort_refines : forall depth labels asc,
   M_index_sort code_params depth labels None asc = Ok (S_index_sort labels keys asc).
 Proof. exact code_index_sort_refines. Qed.
 Print Assumptions C12_index_sort_refines.
+
+(* Grow-only hierarchical index (FrameGO columns, IndexHierarchyGO), ANY history of append / extend / reads
+   from a coherent state (freshly built or materialised): with the refresh condition of
+   IndexHierarchy.values_at_depth and the flag updates of append/extend that the source states today, the
+   lexsort key vectors sort_index_for_order obtains are those of the CURRENT labels -- no appended label is
+   missing from the sort. *)
+Theorem C12_go_key_vectors_current : forall ops st depth, ih_coherent st -> (2 <= depth)%nat ->
+  ih_key_vectors code_cache_params (ih_run code_cache_params ops st) depth =
+  index_keys depth (ih_labels st ++ flat_map ih_op_labels ops).
+Proof. exact code_ih_key_vectors_current. Qed.
+Print Assumptions C12_go_key_vectors_current.
